@@ -219,6 +219,29 @@ impl<KC, DC, C> Database<KC, DC, C> {
         }
         Ok(count)
     }
+    /// Ascending iteration over the keys inside `range` (heed::Database::range).
+    pub fn range<'a, 'txn, R>(&self, txn: &'txn RoTxn, range: &'a R) -> Result<RoRange<'txn, KC, DC>>
+    where KC: BytesEncode<'a>, R: RangeBounds<KC::EItem> {
+        let lo: Option<(u64, bool)> = match range.start_bound() {
+            Bound::Included(k) => Some((k64(&KC::bytes_encode(k).map_err(Error::Encoding)?), true)),
+            Bound::Excluded(k) => Some((k64(&KC::bytes_encode(k).map_err(Error::Encoding)?), false)),
+            Bound::Unbounded => None };
+        let hi: Option<(u64, bool)> = match range.end_bound() {
+            Bound::Included(k) => Some((k64(&KC::bytes_encode(k).map_err(Error::Encoding)?), true)),
+            Bound::Excluded(k) => Some((k64(&KC::bytes_encode(k).map_err(Error::Encoding)?), false)),
+            Bound::Unbounded => None };
+        Ok(RoRange { store: txn.store, lo, hi, started: false, cur: 0, _m: PhantomData })
+    }
+    pub fn first<'txn>(&self, txn: &'txn RoTxn) -> Result<Option<(KC::DItem, DC::DItem)>>
+    where KC: BytesDecode<'txn>, DC: BytesDecode<'txn> {
+        match txn.s().seek(0, false) { Some(i) => decode_pair::<KC, DC>(txn.store, i).map(Some), None => Ok(None) }
+    }
+    pub fn last<'txn>(&self, txn: &'txn RoTxn) -> Result<Option<(KC::DItem, DC::DItem)>>
+    where KC: BytesDecode<'txn>, DC: BytesDecode<'txn> {
+        let s = txn.s();
+        match s.max_key() { Some(k) => match s.find(k) { Some(i) => decode_pair::<KC, DC>(txn.store, i).map(Some), None => Ok(None) }, None => Ok(None) }
+    }
+    pub fn is_empty(&self, txn: &RoTxn) -> Result<bool> { Ok(txn.s().count() == 0) }
     pub fn clear(&self, txn: &mut RwTxn) -> Result<()> { let s = unsafe { &mut *txn.txn.store }; let mut i = 0; while i < CAP { s.used[i] = false; i += 1; } Ok(()) }
     pub fn iter<'txn>(&self, txn: &'txn RoTxn) -> Result<RoIter<'txn, KC, DC>> {
         Ok(RoIter { c: Cursor { store: txn.store, pv: 0, pm: 0, started: false, cur: 0 }, _m: PhantomData })
@@ -262,6 +285,29 @@ fn decode_pair<'txn, KC: BytesDecode<'txn>, DC: BytesDecode<'txn>>(store: *mut S
 impl<'txn, KC: BytesDecode<'txn>, DC: BytesDecode<'txn>> Iterator for RoIter<'txn, KC, DC> {
     type Item = Result<(KC::DItem, DC::DItem)>;
     fn next(&mut self) -> Option<Self::Item> { let i = self.c.advance()?; Some(decode_pair::<KC, DC>(self.c.store, i)) }
+}
+
+pub struct RoRange<'txn, KC, DC> { store: *mut Store, lo: Option<(u64, bool)>, hi: Option<(u64, bool)>, started: bool, cur: u64, _m: PhantomData<(&'txn (), KC, DC)> }
+impl<'txn, KC, DC> RoRange<'txn, KC, DC> {
+    pub fn remap_types<KC2, DC2>(self) -> RoRange<'txn, KC2, DC2> { RoRange { store: self.store, lo: self.lo, hi: self.hi, started: self.started, cur: self.cur, _m: PhantomData } }
+    pub fn remap_key_type<KC2>(self) -> RoRange<'txn, KC2, DC> { self.remap_types() }
+    pub fn remap_data_type<DC2>(self) -> RoRange<'txn, KC, DC2> { self.remap_types() }
+}
+impl<'txn, KC: BytesDecode<'txn>, DC: BytesDecode<'txn>> Iterator for RoRange<'txn, KC, DC> {
+    type Item = Result<(KC::DItem, DC::DItem)>;
+    fn next(&mut self) -> Option<Self::Item> {
+        let s = unsafe { &*self.store };
+        let slot = if !self.started {
+            self.started = true;
+            match self.lo { Some((b, inc)) => s.seek(b, !inc), None => s.seek(0, false) }
+        } else { s.seek(self.cur, true) };
+        let i = slot?;
+        let k = s.keys[i];
+        let inside = match self.hi { Some((b, inc)) => if inc { k <= b } else { k < b }, None => true };
+        if !inside { return None; }
+        self.cur = k;
+        Some(decode_pair::<KC, DC>(self.store, i))
+    }
 }
 
 pub struct RwPrefix<'txn, KC, DC> { c: Cursor, _m: PhantomData<(&'txn (), KC, DC)> }
